@@ -271,7 +271,9 @@ func (o *c09H1Origin) handle(c net.Conn) {
 			tag, _ := strconv.Atoi(r.Header.Get("X-Tag"))
 			p := c09Parsed{tag: tag, plan: c09ParsePlan(r.Header.Get("X-Plan")), method: r.Method}
 			expects := strings.EqualFold(r.Header.Get("Expect"), "100-continue")
-			lateBody := expects && p.plan.expect == 2
+			// expect == 2 without an Expect header (round 7): an upload answered early, before its
+			// body has been read
+			lateBody := p.plan.expect == 2 && r.ContentLength > 0
 			var body []byte
 			if !lateBody {
 				if expects && p.plan.expect == 1 {
